@@ -256,6 +256,15 @@ where
 
                 if di == 0 {
                     self.vmp_apply_dft_to_dft(&mut res_dft, &a_dft, &ggsw.data, 0, scratch_2);
+                    // The following digits accumulate into limbs past the shortened size: they must start
+                    // from zero (res_dft may be uninitialised scratch memory).
+                    let written: usize = res_dft.size();
+                    res_dft.set_size(res_dft.max_size());
+                    for j in written..res_dft.size() {
+                        for col in 0..cols {
+                            res_dft.zero_at(col, j);
+                        }
+                    }
                 } else {
                     // Overwrite tmp with shifted product, then fold into res_dft.
                     res_dft_tmp.set_size(res_dft.size());
